@@ -300,6 +300,7 @@ void checkOracles(const Desc& d, const Obs& o, RunResult& r) {
     size_t totalExpectedFailures = 0; bool anyRepFailed = false;
     Map<Str, size_t> tokenExpected;        // token -> how often a failure with it must have been printed
     Map<Str, size_t> childTokens;          // the same for failures recorded inside forked children
+    bool childrenMayOverlap = false;
     Set<Str> childDontCare;                // ... except those of tests whose child the parent may not have waited for
     Vec<std::pair<Str, Str> > expectedBlocks;  // (header, token) per expected failure, for the console
     size_t failCursor = 0;
@@ -428,6 +429,7 @@ void checkOracles(const Desc& d, const Obs& o, RunResult& r) {
                     for (size_t i = 0; i < x.fails.size(); i++) if (x.fails[i].kind == 0 && x.fails[i].token.compare(0, 2, "tk") == 0) {
                         if (eintr == 0 && !forkFail) childTokens[x.fails[i].token]++; else childDontCare.insert(x.fails[i].token);
                     }
+                if (eintr > 30) childrenMayOverlap = true;      // the parent may have stopped waiting: that child goes on beside the next ones and their output interleaves byte by byte
                 if (!seen.empty()) r.fail("C11", "ran_in_parent", sfmt("test %d executed %zu statements in the parent process", st.test, seen.size()));
                 repFailures += segFails.size(); failCursor += segFails.size();
                 continue;
@@ -524,7 +526,7 @@ void checkOracles(const Desc& d, const Obs& o, RunResult& r) {
 
     if (!o.wrapperProblems.empty()) r.fail(o.wrapperProblems.find("plugins installed") != Str::npos ? "C17" : "C01", "static_entry_point", sigOf("what", o.wrapperProblems.find("plugins installed") != Str::npos ? "runner's own plugin left installed" : (o.wrapperProblems.find("returned") != Str::npos ? "return value" : "actions")), o.wrapperProblems);
     if (o.pluginCount != o.pluginCountExpected || o.removedStillFound) r.fail("C17", "plugin_removed", sigOf("what", o.pluginCount > o.pluginCountExpected ? "plugin not removed" : "wrong plugin removed"), sfmt("%d plugins installed after the removals, model %d; %d removed names still found", o.pluginCount, o.pluginCountExpected, o.removedStillFound));
-    if (c.separate && !d.pi("synthetic")) {
+    if (c.separate && !d.pi("synthetic") && !childrenMayOverlap) {
         for (Map<Str, size_t>::const_iterator it = childTokens.begin(); it != childTokens.end(); ++it) {
             if (childDontCare.count(it->first)) continue;
             size_t got = countOcc(o.childConsole, it->first);
